@@ -282,17 +282,279 @@ Proof.
   destruct (match_rule rs path) as [a b c d e f g]. simpl in *. subst. reflexivity.
 Qed.
 
+(* ---------- membership ---------- *)
+Lemma put_in : forall rs p c r, In r (put rs p c) <-> r = (p, c) \/ (In r rs /\ fst r <> p).
+Proof.
+  intros rs p c r. unfold put. simpl. rewrite remove_key_in. split.
+  - intros [H|H]; [left; symmetry; exact H | right; exact H].
+  - intros [H|H]; [left; symmetry; exact H | right; exact H].
+Qed.
+
+(* stored keys are never empty (AddLocationConf("") panics before storing anything) *)
+Definition keys_ok (rs : rules) : Prop := forall r, In r rs -> fst r <> "".
+
+Lemma str_nonempty_true : forall s, str_nonempty s = true <-> s <> "".
+Proof.
+  intros s. unfold str_nonempty. destruct (String.eqb_spec s ""); simpl; split; intros H; congruence.
+Qed.
+
+Lemma put_keys_ok : forall rs p c, keys_ok rs -> p <> "" -> keys_ok (put rs p c).
+Proof.
+  intros rs p c Hk Hp r Hr. apply put_in in Hr. destruct Hr as [Hr|[Hr _]].
+  - subst r. exact Hp.
+  - apply Hk; auto.
+Qed.
+
+Lemma del_keys_ok : forall rs p, keys_ok rs -> keys_ok (del rs p).
+Proof. intros rs p Hk r Hr. apply remove_key_in in Hr. apply Hk. tauto. Qed.
+
+Lemma load_wf : forall l rs, wf rs -> wf (fst (load rs l)).
+Proof.
+  induction l as [|r l IH]; intros rs H; simpl; auto.
+  destruct (str_nonempty (fst r)); simpl; auto. apply IH. apply put_wf; auto.
+Qed.
+
+Lemma load_keys_ok : forall l rs, keys_ok rs -> keys_ok (fst (load rs l)).
+Proof.
+  induction l as [|r l IH]; intros rs H; simpl; auto.
+  destruct (str_nonempty (fst r)) eqn:E; simpl; auto. apply IH. apply put_keys_ok; auto.
+  apply str_nonempty_true; auto.
+Qed.
+
+Lemma wf_nil : wf [].
+Proof. unfold wf. simpl. constructor. Qed.
+
+Lemma keys_ok_nil : keys_ok [].
+Proof. intros r []. Qed.
+
+(* ---------- ToProto order is a permutation of the stored rules ---------- *)
+Lemma insert_by_key_perm : forall r l, Permutation (r :: l) (insert_by_key r l).
+Proof.
+  intros r l. induction l as [|x l IH]; simpl; auto.
+  destruct (String.leb (fst r) (fst x)); auto.
+  eapply perm_trans; [apply perm_swap|]. constructor. auto.
+Qed.
+
+Lemma dump_perm : forall rs, Permutation rs (dump rs).
+Proof.
+  induction rs as [|r rs IH]; simpl; auto.
+  eapply perm_trans; [|apply insert_by_key_perm]. constructor. auto.
+Qed.
+
+Theorem dump_in : forall rs r, In r (dump rs) <-> In r rs.
+Proof.
+  intros rs r. split; intro H.
+  - eapply Permutation_in; [apply Permutation_sym, dump_perm|]. auto.
+  - eapply Permutation_in; [apply dump_perm|]. auto.
+Qed.
+
+Lemma dump_wf : forall rs, wf rs -> wf (dump rs).
+Proof.
+  unfold wf. intros rs H. eapply Permutation_NoDup; [|exact H].
+  apply Permutation_map. apply dump_perm.
+Qed.
+
+Lemma dump_keys_ok : forall rs, keys_ok rs -> keys_ok (dump rs).
+Proof. intros rs H r Hr. apply H. apply dump_in. auto. Qed.
+
+(* loading a duplicate-free list without empty prefixes: every rule of the list is stored,
+   rules with other keys are kept, and the call returns normally *)
+Lemma load_in : forall l rs, wf l -> keys_ok l ->
+  snd (load rs l) = ODone /\
+  forall r, In r (fst (load rs l)) <-> In r l \/ (In r rs /\ ~ In (fst r) (map fst l)).
+Proof.
+  induction l as [|x l IH]; intros rs Hnd Hk; simpl.
+  - split; auto. intros r. tauto.
+  - destruct x as [xp xc]. unfold wf in Hnd. simpl in *.
+    inversion Hnd as [|? ? Hn Hd]; subst.
+    assert (Hx : str_nonempty xp = true).
+    { apply str_nonempty_true. apply (Hk (xp, xc)). left. reflexivity. }
+    rewrite Hx.
+    destruct (IH (put rs xp xc) Hd (fun r H => Hk r (or_intror H))) as [Ho Hi].
+    split; auto. intros r. rewrite Hi. rewrite put_in. split.
+    + intros [H|[[H|[H1 H2]] H3]].
+      * left. right. exact H.
+      * left. left. symmetry. exact H.
+      * right. split; [exact H1|]. intros [E|E]; [apply H2; symmetry; exact E | exact (H3 E)].
+    + intros [[H|H]|[H1 H2]].
+      * right. subst r. simpl. split; [left; reflexivity | exact Hn].
+      * left. exact H.
+      * right. split.
+        -- right. split; [exact H1|]. intro E. apply H2. left. symmetry. exact E.
+        -- intro E. apply H2. right. exact E.
+Qed.
+
+Lemma load_no_panic : forall l rs,
+  existsb (fun r => negb (str_nonempty (fst r))) l = false -> snd (load rs l) = ODone.
+Proof.
+  induction l as [|x l IH]; intros rs H; simpl in *; auto.
+  apply orb_false_iff in H. destruct H as [H1 H2].
+  apply negb_false_iff in H1. rewrite H1. apply IH. exact H2.
+Qed.
+
+(* ---------- resolution depends only on the SET of stored rules ---------- *)
+Lemma longest_setting_ext : forall set rs1 rs2 path r,
+  (forall x, In x rs1 <-> In x rs2) ->
+  is_longest_setting set rs1 path r -> is_longest_setting set rs2 path r.
+Proof.
+  intros set rs1 rs2 path r E [I [P [S M]]]. repeat split; auto.
+  - apply E; auto.
+  - intros r' I' P' S'. apply M; auto. apply E; auto.
+Qed.
+
+Lemma match_field_ext : forall {A} (set : conf -> bool) (get : conf -> A) rs1 rs2 path,
+  wf rs2 -> (forall x, In x rs1 <-> In x rs2) ->
+  (forall a b, get (merge a b) = if set b then get b else get a) ->
+  get (match_rule rs1 path) = get (match_rule rs2 path).
+Proof.
+  intros A set get rs1 rs2 path W2 E Hm.
+  destruct (match_field_spec set get rs1 path Hm) as [[r1 [L1 G1]]|[N1 G1]];
+  destruct (match_field_spec set get rs2 path Hm) as [[r2 [L2 G2]]|[N2 G2]].
+  - rewrite G1, G2. f_equal. f_equal. eapply longest_unique with (rs := rs2); eauto.
+    eapply longest_setting_ext; eauto.
+  - exfalso. destruct L1 as [I [P [S _]]]. rewrite (N2 r1 (proj1 (E r1) I) P) in S. discriminate.
+  - exfalso. destruct L2 as [I [P [S _]]]. rewrite (N1 r2 (proj2 (E r2) I) P) in S. discriminate.
+  - rewrite G1, G2. reflexivity.
+Qed.
+
+Theorem match_rule_ext : forall rs1 rs2 path,
+  wf rs2 -> (forall x, In x rs1 <-> In x rs2) -> match_rule rs1 path = match_rule rs2 path.
+Proof.
+  intros rs1 rs2 path W2 E.
+  pose proof (match_field_ext set_collection collection rs1 rs2 path W2 E merge_collection) as H1.
+  pose proof (match_field_ext set_replication replication rs1 rs2 path W2 E merge_replication) as H2.
+  pose proof (match_field_ext set_ttl ttl rs1 rs2 path W2 E merge_ttl) as H3.
+  pose proof (match_field_ext set_disk_type disk_type rs1 rs2 path W2 E merge_disk_type) as H4.
+  pose proof (match_field_ext set_fsync fsync rs1 rs2 path W2 E merge_fsync) as H5.
+  pose proof (match_field_ext set_growth growth rs1 rs2 path W2 E merge_growth) as H6.
+  pose proof (match_field_ext set_read_only read_only rs1 rs2 path W2 E merge_read_only) as H7.
+  destruct (match_rule rs1 path), (match_rule rs2 path). simpl in *. subst. reflexivity.
+Qed.
+
+(* ---------- the executable declarative oracle ---------- *)
+Lemma cands_in : forall set rs path r,
+  In r (cands set rs path) <-> In r rs /\ String.prefix (fst r) path = true /\ set (snd r) = true.
+Proof.
+  intros. unfold cands. rewrite filter_In. rewrite andb_true_iff. tauto.
+Qed.
+
+Theorem field_ok_spec : forall {A} (eqb : A -> A -> bool) set (get : conf -> A) dflt rs path v,
+  (forall x y, eqb x y = true <-> x = y) ->
+  (field_ok eqb set get dflt rs path v = true <->
+   (exists r, is_longest_setting set rs path r /\ v = get (snd r)) \/
+   (none_sets set rs path /\ v = dflt)).
+Proof.
+  intros A eqb set get dflt rs path v Heq. unfold field_ok.
+  pose proof (cands_in set rs path) as Hc.
+  destruct (cands set rs path) as [|c0 cs] eqn:E.
+  - rewrite Heq. split.
+    + intros Hv. right. split; auto. intros r Hr Pr.
+      destruct (set (snd r)) eqn:S; auto. exfalso. apply (proj2 (Hc r)). auto.
+    + intros [[r [[I [P [S _]]] _]]|[_ Hv]]; auto. exfalso. apply (proj2 (Hc r)). auto.
+  - rewrite existsb_exists. split.
+    + intros [r [Hr Hb]]. apply andb_true_iff in Hb. destruct Hb as [Hv Hall].
+      left. exists r. apply Heq in Hv. split; auto.
+      apply Hc in Hr. destruct Hr as [I [P S]]. repeat split; auto.
+      intros r' I' P' S'. rewrite forallb_forall in Hall.
+      apply Nat.leb_le. apply Hall. apply Hc. auto.
+    + intros [[r [[I [P [S M]]] Hv]]|[Hn _]].
+      * exists r. split; [apply Hc; auto|]. apply andb_true_iff. split; [apply Heq; auto|].
+        apply forallb_forall. intros r' Hr'. apply Hc in Hr'. destruct Hr' as [I' [P' S']].
+        apply Nat.leb_le. apply M; auto.
+      * exfalso. destruct (proj1 (Hc c0) (or_introl eq_refl)) as [I [P S]].
+        rewrite (Hn c0 I P) in S. discriminate.
+Qed.
+
+(* with one value per key the oracle accepts exactly the model's answer *)
+Lemma field_ok_iff : forall {A} (eqb : A -> A -> bool) (set : conf -> bool) (get : conf -> A) rs path v,
+  (forall x y, eqb x y = true <-> x = y) -> wf rs ->
+  (forall a b, get (merge a b) = if set b then get b else get a) ->
+  (field_ok eqb set get (get empty_conf) rs path v = true <-> v = get (match_rule rs path)).
+Proof.
+  intros A eqb set get rs path v Heq W Hm. rewrite (field_ok_spec eqb set get _ rs path v Heq).
+  destruct (match_field_spec set get rs path Hm) as [[r [L G]]|[N G]]; rewrite G; split.
+  - intros [[r' [L' Hv]]|[N' _]].
+    + rewrite Hv. f_equal. f_equal. eapply longest_unique; eauto.
+    + exfalso. destruct L as [I [P [S _]]]. rewrite (N' r I P) in S. discriminate.
+  - intros Hv. left. exists r. auto.
+  - intros [[r' [[I [P [S _]]] _]]|[_ Hv]]; auto. exfalso. rewrite (N r' I P) in S. discriminate.
+  - intros Hv. right. auto.
+Qed.
+
+Lemma bool_eqb_iff : forall x y, Bool.eqb x y = true <-> x = y.
+Proof. intros. apply Bool.eqb_true_iff. Qed.
+
+Theorem match_ok_iff : forall rs path c, wf rs -> (match_ok rs path c = true <-> c = match_rule rs path).
+Proof.
+  intros rs path c W. unfold match_ok. rewrite !andb_true_iff.
+  rewrite (field_ok_iff String.eqb set_collection collection rs path _ String.eqb_eq W merge_collection).
+  rewrite (field_ok_iff String.eqb set_replication replication rs path _ String.eqb_eq W merge_replication).
+  rewrite (field_ok_iff String.eqb set_ttl ttl rs path _ String.eqb_eq W merge_ttl).
+  rewrite (field_ok_iff String.eqb set_disk_type disk_type rs path _ String.eqb_eq W merge_disk_type).
+  rewrite (field_ok_iff Bool.eqb set_fsync fsync rs path _ bool_eqb_iff W merge_fsync).
+  rewrite (field_ok_iff N.eqb set_growth growth rs path _ N.eqb_eq W merge_growth).
+  rewrite (field_ok_iff Bool.eqb set_read_only read_only rs path _ bool_eqb_iff W merge_read_only).
+  split.
+  - intros [[[[[[H1 H2] H3] H4] H5] H6] H7].
+    destruct c, (match_rule rs path). simpl in *. subst. reflexivity.
+  - intros H. subst c. repeat split.
+Qed.
+
+(* ---------- "unset" is the zero value of the field ---------- *)
+Theorem unset_is_zero : forall c,
+  (set_collection c = false <-> collection c = "") /\
+  (set_replication c = false <-> replication c = "") /\
+  (set_ttl c = false <-> ttl c = "") /\
+  (set_disk_type c = false <-> disk_type c = "") /\
+  (set_fsync c = false <-> fsync c = false) /\
+  (set_growth c = false <-> growth c = 0%N) /\
+  (set_read_only c = false <-> read_only c = false).
+Proof.
+  intros c. unfold set_collection, set_replication, set_ttl, set_disk_type, set_fsync, set_growth,
+    set_read_only, str_nonempty.
+  repeat split; intros H;
+    try (apply negb_false_iff in H; apply String.eqb_eq in H; exact H);
+    try (apply negb_false_iff; apply String.eqb_eq; exact H);
+    try exact H.
+  - apply N.ltb_ge in H. lia.
+  - apply N.ltb_ge. lia.
+Qed.
+
+(* a longer rule cannot clear fsync / read_only / growth set by a shorter one *)
+Theorem merge_cannot_clear : forall a b,
+  (fsync a = true -> fsync (merge a b) = true) /\
+  (read_only a = true -> read_only (merge a b) = true) /\
+  (growth b = 0%N -> growth (merge a b) = growth a).
+Proof.
+  intros a b. simpl. repeat split.
+  - intros H. rewrite H. apply orb_true_r.
+  - intros H. destruct (read_only b); auto.
+  - intros H. rewrite H. reflexivity.
+Qed.
+
 (* every reachable rule set is well formed *)
-Lemma step_wf : forall rs o, wf rs -> wf (fst (step rs o)).
-Proof. intros rs [p c|p|path] H; simpl; auto using put_wf, del_wf. Qed.
+Lemma step_wf : forall m rs o, wf rs -> wf (fst (step_with m rs o)).
+Proof.
+  intros m rs [p c|p|path|l| | |] H; simpl; auto using put_wf, del_wf, load_wf, wf_nil.
+  destruct (str_nonempty p); simpl; auto using put_wf.
+Qed.
+
+Lemma step_keys_ok : forall m rs o, keys_ok rs -> keys_ok (fst (step_with m rs o)).
+Proof.
+  intros m rs [p c|p|path|l| | |] H; simpl; auto using del_keys_ok, load_keys_ok, keys_ok_nil.
+  destruct (str_nonempty p) eqn:E; simpl; auto. apply put_keys_ok; auto. apply str_nonempty_true; auto.
+Qed.
+
+Lemma step_with_eq : forall rs o, wf rs -> step_with match_rule rs o = step_with ref_match rs o.
+Proof. intros rs [p c|p|path|l| | |] H; simpl; auto. rewrite match_rule_is_ref by auto. reflexivity. Qed.
 
 Theorem run_is_ref_run : forall ops rs, wf rs -> run rs ops = ref_run rs ops.
 Proof.
+  unfold run, ref_run.
   induction ops as [|o ops IH]; intros rs Hwf; simpl; auto.
-  destruct o as [p c|p|path]; simpl.
-  - f_equal. apply IH. apply put_wf; auto.
-  - f_equal. apply IH. apply del_wf; auto.
-  - rewrite match_rule_is_ref by auto. f_equal. apply IH; auto.
+  rewrite step_with_eq by auto.
+  pose proof (step_wf ref_match rs o Hwf) as W.
+  destruct (step_with ref_match rs o) as [rs' out]. simpl in W. f_equal. apply IH. exact W.
 Qed.
 
 (* removing a rule restores the settings computed without it *)
@@ -309,3 +571,91 @@ Qed.
 (* and in general: delete = resolve over the rules other than p *)
 Theorem del_spec : forall rs p r, In r (del rs p) <-> In r rs /\ fst r <> p.
 Proof. intros. apply remove_key_in. Qed.
+
+Lemma remove_key_idem : forall p rs, remove_key p (remove_key p rs) = remove_key p rs.
+Proof. intros. apply remove_key_id. apply remove_key_notin. Qed.
+
+(* deleting p forgets every earlier Add of p, whatever was stored under p before *)
+Theorem del_put : forall rs p c, del (put rs p c) p = del rs p.
+Proof.
+  intros. unfold del, put. simpl. rewrite String.eqb_refl. simpl. apply remove_key_idem.
+Qed.
+
+Theorem del_put_put : forall rs p c1 c2, del (put (put rs p c1) p c2) p = del rs p.
+Proof. intros. rewrite !del_put. reflexivity. Qed.
+
+Theorem del_match_ref : forall rs p path, wf rs ->
+  match_rule (del rs p) path = ref_match (filter (fun r => negb (String.eqb (fst r) p)) rs) path.
+Proof. intros rs p path W. exact (match_rule_is_ref (del rs p) path (del_wf rs p W)). Qed.
+
+Theorem del_put_match : forall rs p c path,
+  match_rule (del (put rs p c) p) path = match_rule (del rs p) path.
+Proof. intros. rewrite del_put. reflexivity. Qed.
+
+(* ToText + LoadFromBytes into a fresh FilerConf changes no answer *)
+Theorem reload_same : forall m rs, wf rs -> keys_ok rs ->
+  snd (step_with m rs Reload) = ODone /\
+  forall path, match_rule (fst (step_with m rs Reload)) path = match_rule rs path.
+Proof.
+  intros m rs W K. simpl.
+  destruct (load_in (dump rs) [] (dump_wf rs W) (dump_keys_ok rs K)) as [Ho Hi].
+  split; auto. intros path. apply match_rule_ext; auto.
+  intros x. rewrite Hi. rewrite dump_in. simpl. tauto.
+Qed.
+
+(* ---------- finding 0: an empty location prefix panics ---------- *)
+Theorem no_panic_refuted : exists ops, In OPanic (run [] ops).
+Proof. exists [Add "" empty_conf]. vm_compute. left. reflexivity. Qed.
+
+Lemma step_no_panic : forall m rs o, wf rs -> keys_ok rs -> op_empty_prefix o = false ->
+  snd (step_with m rs o) <> OPanic.
+Proof.
+  intros m rs [p c|p|path|l| | |] W K H; simpl in *; try discriminate.
+  - apply negb_false_iff in H. rewrite H. simpl. discriminate.
+  - rewrite (load_no_panic l rs H). discriminate.
+  - destruct (load_in (dump rs) [] (dump_wf rs W) (dump_keys_ok rs K)) as [Ho _]. rewrite Ho. discriminate.
+Qed.
+
+Theorem no_panic_partial : forall m ops rs, wf rs -> keys_ok rs ->
+  existsb op_empty_prefix ops = false -> ~ In OPanic (run_with m rs ops).
+Proof.
+  intros m. induction ops as [|o ops IH]; intros rs W K H; simpl in *; [tauto|].
+  apply orb_false_iff in H. destruct H as [H1 H2].
+  pose proof (step_no_panic m rs o W K H1) as Hs.
+  pose proof (step_wf m rs o W) as W'. pose proof (step_keys_ok m rs o K) as K'.
+  destruct (step_with m rs o) as [rs' out]. simpl in *.
+  intros [E|E]; [apply Hs; exact E|]. exact (IH rs' W' K' H2 E).
+Qed.
+
+(* a non-empty prefix is accepted and stored *)
+Theorem add_partial : forall m rs p c, op_empty_prefix (Add p c) = false ->
+  step_with m rs (Add p c) = (put rs p c, ODone).
+Proof. intros m rs p c H. simpl in *. apply negb_false_iff in H. rewrite H. reflexivity. Qed.
+
+Theorem load_partial : forall m rs l, op_empty_prefix (Load l) = false ->
+  step_with m rs (Load l) = (fold_left (fun acc r => put acc (fst r) (snd r)) l rs, ODone).
+Proof.
+  intros m rs l. simpl. revert rs. induction l as [|x l IH]; intros rs H; simpl in *; auto.
+  apply orb_false_iff in H. destruct H as [H1 H2]. apply negb_false_iff in H1. rewrite H1. apply IH. exact H2.
+Qed.
+
+(* non-vacuity *)
+Definition ex_a : conf := {| collection := "x"; replication := ""; ttl := "1d"; disk_type := "hdd";
+                             fsync := false; growth := 0; read_only := false |}.
+Definition ex_ab : conf := {| collection := ""; replication := "001"; ttl := "2d"; disk_type := "ssd";
+                              fsync := true; growth := 2; read_only := false |}.
+Definition ex_rules : rules := put (put (put [] "/a" ex_a) "/a/b" ex_ab) "/ab" empty_conf.
+
+Lemma example_holds :
+  wf ex_rules /\ keys_ok ex_rules /\
+  match_rule ex_rules "/a/b/c" =
+    {| collection := "x"; replication := "001"; ttl := "2d"; disk_type := "ssd";
+       fsync := true; growth := 2; read_only := false |} /\
+  match_ok ex_rules "/a/b/c" (match_rule ex_rules "/a/b/c") = true /\
+  match_rule (del ex_rules "/a/b") "/a/b/c" = ex_a /\
+  existsb op_empty_prefix [Add "/a" ex_a; Load [("/a/b", ex_ab)]; Reload; Match "/a/b/c"; Dump] = false.
+Proof.
+  split; [repeat apply put_wf; apply wf_nil|].
+  split; [repeat apply put_keys_ok; try apply keys_ok_nil; discriminate|].
+  vm_compute. repeat split.
+Qed.
